@@ -139,10 +139,8 @@ def tempoOfObj (exbpms : Dict Rat) (ex : Bool) (o : Obj) : Option BcSnap :=
   let bpm? : Option Rat := if ex then dictGet? exbpms o.id else (parseHex2 o.id).map (fun v => ((v : Nat) : Rat))
   bpm?.bind fun bpm => if bpm ≤ 0 then none else some ⟨bpm, 4, { o.snap with met := some 4 }⟩
 
-def strictAscBc : List BcSnap → Bool
-  | [] => true
-  | [_] => true
-  | a :: b :: t => a.snap.lt b.snap && strictAscBc (b :: t)
+/-- tempo positions strictly increasing: `Reamber.Timing.strictSnaps` -/
+abbrev strictAscBc : List BcSnap → Bool := strictSnaps
 
 /-- everything but the header record: tempo list, positioned hits and holds -/
 def denoteBody (lay : Layout) (doc : Doc) (hdr : Header) : Option (List BcSnap × List SHit × List SHold) := do
